@@ -42,7 +42,7 @@ ROOT = (1, 3, 6, 1, 2, 1, 5)
 ENTRY = (1, 3, 6, 1, 2, 1, 5, 1)
 
 SINGLE_OPS = ("get", "multiget", "getnext", "multigetnext", "set", "multiset", "bulkget", "pyget", "pymultiget")
-WALK_OPS = ("walk", "multiwalk", "bulkwalk", "table", "bulktable", "pywalk")
+WALK_OPS = ("walk", "multiwalk", "bulkwalk", "table", "bulktable", "pywalk", "walk-warn", "multiwalk-warn", "pywalk-warn")
 
 
 def make_hook(status, index, nvb, when):
@@ -95,6 +95,12 @@ def call(w, op, nreq):
         return drive(c.multiset({OID(o): rig.from_tuple(("int", 1)) for o in oids}))
     if op == "bulkget":
         return drive(c.bulkget([OID(oids[0])], [OID(o) for o in oids[1:]] or [OID(oids[0])], max_list_size=2))
+    if op == "walk-warn":
+        return drive_agen(c.walk(OID(ROOT), errors="warn"), limit=100)
+    if op == "multiwalk-warn":
+        return drive_agen(c.multiwalk([OID(ROOT), OID((1, 3, 6, 1, 2, 1, 6))], errors="warn"), limit=100)
+    if op == "pywalk-warn":
+        return drive_agen(p.walk(rig.oid_s(ROOT), errors="warn"), limit=100)
     if op == "walk":
         return drive_agen(c.walk(OID(ROOT)), limit=100)
     if op == "pywalk":
